@@ -485,7 +485,8 @@ def local_rules(ctx, prog):
                         src = discr_source(b, op_local(t["discr"]))
                         pl = guard_src_place(src)
                         labels = [lab for lab, tgt in t["arms"] if tgt == v]
-                        okx = src.get("kind") == "discr" and pl is not None and pl["l"] == dest and 1 not in labels
+                        same_val = pl is not None and (pl["l"] == dest or dest in Slice(b, through_calls=False).run({"k": "copy", "place": {"l": pl["l"], "p": []}})["locals"])
+                        okx = src.get("kind") == "discr" and same_val and 1 not in labels
                     exits_ok = exits_ok and okx
             wk = [(bb, t) for bb, t in b.calls() if t["callee"].get("method") == "wake" and bb in loop]
             from_n = bool(wk) and all(any(t2 is npg[0][1] for _k, _b, t2 in Slice(b).run(t["args"][0])["calls"]) for _bb, t in wk)
